@@ -36,6 +36,11 @@ RULE = ("group 'sys': seeded sampling; forward method x backward setting cycle s
         "method x emode. non-trivial = n >= 2, non-zero cotangent, no ConvergenceWarning in the forward and first-order backward passes, "
         "first-order gradients (not recorded and recorded) compared for every input, and a non-zero reference gradient for at least one "
         "leaf of A (or the zero-B shortcut case)")
+RULE += ("; group 'estruct': special structure in E with E itself differentiated - all columns bitwise equal (per batch entry / everywhere: "
+         "torch.full, exactly zero, c * ones), two of >= 3 columns equal, columns equal in some batch entries only, batch entries sharing one row, "
+         "stride-0 views of a smaller leaf (scalar.expand, (*,1).expand over columns, (ncols,).expand over batch), scalar leaf * ones - and "
+         "duplicated columns in B (also without E), walked systematically over 7 forward methods (incl. plain exactsolve) x 9 backward settings x 13 structures "
+         "from a seed-dependent offset, E / E+M, all operator kinds, first and second order")
 RULE += ("; sys cases rotate loss / input variants {linear loss, loss quadratic in X, inputs chained through autograd history, both}; group reassign (vf/c02_extra.py): histories on one operator object - tensors re-assigned between chained solves and one backward, a failing call (operator product raising at a seeded index) followed by an in-place update and reuse, change of the alias structure of the operator's tensors, operators without tensor parameters")
 MIN_NONTRIVIAL = {"quick": 800, "thorough": 8000}
 ASSUMPTIONS = [
@@ -49,6 +54,8 @@ ASSUMPTIONS = [
     "comparison: |g - g_ref| <= tol * (|g_ref| + 0.02 * max_leaf |g_ref|) per leaf, tol = max(2e-8, 300 * t * cond) first order, "
     "max(2e-7, 300 * t * cond^2) second order, t = loosest tolerance among the solver calls the spy recorded (0 for direct solves)",
     "broyden1 only for n <= 5, <= 2 columns and batch size <= 3 (cost); jac operator only real, unbatched",
+    "group 'estruct': 2 <= ncols <= 4; the structured E obeys the same cond bound (re-drawn / shrunk, exact zero as last resort); a structure that "
+    "needs a batch of shifts degrades to 'alleq' when E ends up unbatched",
     "right-hand sides of norm O(1) (plus the exact-zero B shortcut); tiny-norm B (early return of the iterative solvers) is not generated",
 ]
 BUDGET = {"quick": {"worker_timeout": 900, "case_timeout": 150}, "thorough": {"worker_timeout": 3300, "case_timeout": 300}}
@@ -62,7 +69,8 @@ REQUIRED_COUNTERS = {
               "emode_MnoE": 80, "complex_E_cases": 100, "unused_param_checked": 300, "reduced_B": 250, "reduced_E": 170,
               "zero_rhs_cases": 20, "normal_equation_backward": 60, "frozen_input_cases": 40, "real_E_in_complex_system": 5,
               "akind_dense_autoherm": 12, "akind_jac": 10, "akind_add_shared": 10, "akind_adj_mv": 10, "akind_mv_inside": 15,
-              "mkind_shared": 80},
+              "mkind_shared": 80,
+              "estruct_compared_first": 250, "estruct_compared_second": 240, "estruct_coleq_dense_forward": 15, "estruct_coleq_dense_backward_second": 10, "estruct_coleq_iterative_forward": 30, "estruct_coleq_iterative_backward_second": 20, "estruct_withM": 60, "estruct_noM": 60, "estruct_view_of_smaller_leaf": 50, "estruct_E_exactly_zero": 10, "bstruct_dupcols": 60, "bstruct_coleq_dense_forward": 10, "bstruct_coleq_iterative_forward": 20, "estruct_noE": 8, "estruct_alleq": 8, "estruct_full": 8, "estruct_zeros": 8, "estruct_ones_mult": 8, "estruct_someeq": 8, "estruct_alleq_partbatch": 8, "estruct_batchshared": 8, "estruct_none": 8, "estruct_expview": 8, "estruct_expview_cols": 8, "estruct_expview_batch": 8, "estruct_derived_full": 8},
     "thorough": {"chained_input_cases": 1500, "nonlinear_loss_cases": 1500, "reassign_compared_second": 500, "abort_reuse_compared": 200, "alias_change_compared": 200, "noparam_compared": 200, "compared_first_nograph": 6400, "compared_first_graph": 6400, "compared_second": 6240,
                  "backward_solver_calls": 12000, "bck_method_checked": 3600, "spy_backward_calls": 1600, "fwd_cg": 800,
                  "fwd_bicgstab": 800, "fwd_gmres": 640, "fwd_broyden1": 560, "fwd_custom_exactsolve": 560,
@@ -71,7 +79,8 @@ REQUIRED_COUNTERS = {
                  "emode_E": 960, "emode_none": 480, "emode_MnoE": 640, "complex_E_cases": 800, "unused_param_checked": 2400,
                  "reduced_B": 2000, "reduced_E": 1360, "zero_rhs_cases": 160, "normal_equation_backward": 480,
                  "frozen_input_cases": 320, "real_E_in_complex_system": 40, "akind_dense_autoherm": 96, "akind_jac": 80,
-                 "akind_add_shared": 80, "akind_adj_mv": 80, "akind_mv_inside": 120, "mkind_shared": 640},
+                 "akind_add_shared": 80, "akind_adj_mv": 80, "akind_mv_inside": 120, "mkind_shared": 640,
+                 "estruct_compared_first": 2000, "estruct_compared_second": 1920, "estruct_coleq_dense_forward": 120, "estruct_coleq_dense_backward_second": 80, "estruct_coleq_iterative_forward": 240, "estruct_coleq_iterative_backward_second": 160, "estruct_withM": 480, "estruct_noM": 480, "estruct_view_of_smaller_leaf": 400, "estruct_E_exactly_zero": 80, "bstruct_dupcols": 480, "bstruct_coleq_dense_forward": 80, "bstruct_coleq_iterative_forward": 160, "estruct_noE": 64, "estruct_alleq": 64, "estruct_full": 64, "estruct_zeros": 64, "estruct_ones_mult": 64, "estruct_someeq": 64, "estruct_alleq_partbatch": 64, "estruct_batchshared": 64, "estruct_none": 64, "estruct_expview": 64, "estruct_expview_cols": 64, "estruct_expview_batch": 64, "estruct_derived_full": 64},
 }
 
 KMAX = 40.0
@@ -92,8 +101,9 @@ GMRES_A = ["lowrank_const", "lowrank_const_herm"]
 #   batchshared      every batch entry holds the same row of distinct shifts          none       random E (the special values are in B)
 #   expview          scalar leaf .expand(*BE, ncols)                                  expview_cols  leaf (*BE, 1) .expand over the columns
 #   expview_batch    leaf (ncols,) .expand over the batch axes                        derived_full  scalar leaf * ones(*BE, ncols)
+#   noE              no E at all, duplicated columns in B
 ESTRUCTS = ["alleq", "full", "zeros", "ones_mult", "someeq", "alleq_partbatch", "batchshared", "none", "expview", "expview_cols",
-            "expview_batch", "derived_full"]
+            "expview_batch", "derived_full", "noE"]
 ESTRUCT_NEEDS_BATCH = ("alleq_partbatch", "batchshared", "expview_batch")
 ESTRUCT_VIEW = ("expview", "expview_cols", "expview_batch", "derived_full")
 
@@ -176,10 +186,16 @@ def cases(seed, tier):
         if es == "none":
             # random E (or no E at all): the special values are in B only
             d["bstruct"] = rng.choice(["dupcols", "dupcols", "dupcols_some"])
-            d["emode"] = rng.choice(["none", "E", "EM"])
+            d["emode"] = rng.choice(["E", "EM"])
+        if es == "noE":
+            d["bstruct"] = rng.choice(["dupcols", "dupcols", "dupcols_some"])
+            d["emode"] = "none"
         _constrain(d, rng)
         if es == "someeq" and d["ncols"] < 3:
-            d["estruct"] = "alleq"
+            if "broyden1" in (d["fwd"], d["bck"]):
+                d["estruct"] = "alleq"
+            else:
+                d["ncols"] = 3
         if d["estruct"] in ESTRUCT_NEEDS_BATCH:
             BE = gen.BATCH_TUPLES_4[d["batch"]][2]
             if len(BE) == 0 or max(BE) < 2:
@@ -729,7 +745,7 @@ def run_case(desc):
     # special structure of E / B (group 'estruct'); classes that need a batch of shifts degrade to 'alleq' when E ends up unbatched
     estruct = desc.get("estruct") if emode in ("E", "EM") else None
     bstruct = desc.get("bstruct")
-    if estruct == "none":
+    if estruct in ("none", "noE"):
         estruct = None
     if estruct in ESTRUCT_NEEDS_BATCH and (len(BE) == 0 or max(BE) < 2):
         estruct = "alleq"
@@ -1063,12 +1079,41 @@ def run_case(desc):
             obs.count("complex_E_cases")
         if desc["special"] == "zeroB":
             obs.count("zero_rhs_cases")
+        # reach of the structured-E / structured-B classes
+        in_es = desc.get("group") == "estruct"
+        Eh = eff.get("E")
+        e_diff = in_es and Eh is not None and "E" in names
+        coleq = bool(e_diff and ncols >= 2 and e_map is None and (Eh.detach() == Eh.detach()[..., :1]).all())
+        dense_names = ("exactsolve", "custom_exactsolve")
+        if in_es:
+            obs.count("estruct_compared_first")
+            obs.count("estruct_%s" % (estruct or ("noE" if emode == "none" else "none")))
+            if bstruct is not None:
+                obs.count("bstruct_dupcols")
+                if bool((leaves["B"].detach() == leaves["B"].detach()[..., :1]).all()) and ncols >= 2 and "B" in names:
+                    obs.count("bstruct_coleq_dense_forward" if eff_fwd in dense_names else "bstruct_coleq_iterative_forward")
+            if e_diff and estruct is not None:
+                obs.count("estruct_withM" if emode == "EM" else "estruct_noM")
+                if e_map is not None:
+                    obs.count("estruct_view_of_smaller_leaf")
+                if bool((Eh.detach() == 0).all()):
+                    obs.count("estruct_E_exactly_zero")
+            if coleq and eff_fwd in dense_names:
+                obs.count("estruct_coleq_dense_forward")
+            if coleq and eff_fwd not in dense_names:
+                obs.count("estruct_coleq_iterative_forward")
         if g2 is not None and not warned2:
             w2 = compare(g2, gref, "first", "graph", tol1)
             obs.count("compared_first_graph")
             if gg is not None and not warned3:
                 w3 = compare(gg, ggref, "second", "second", tol2)
                 obs.count("compared_second")
+                if in_es:
+                    obs.count("estruct_compared_second")
+                    if coleq and any(c[1] in dense_names for c in bcalls):
+                        obs.count("estruct_coleq_dense_backward_second")
+                    if coleq and bcalls and not any(c[1] in dense_names for c in bcalls):
+                        obs.count("estruct_coleq_iterative_backward_second")
             elif warned3:
                 obs.count("second_warned_not_compared")
         elif warned2:
